@@ -11,7 +11,9 @@ import (
 	"unsafe"
 
 	"github.com/hydraide/hydraide/app/core/hydra/lock"
+	"github.com/hydraide/hydraide/app/zzsim/simdisk"
 	"github.com/hydraide/hydraide/app/zzsim/simrt"
+	hydrapb "github.com/hydraide/hydraide/sdk/go/hydraidego/v3/hydraidepbgo"
 )
 
 // C14 — business lock: exclusive, FIFO, TTL-released, deadlock-free.
@@ -22,7 +24,7 @@ func init() {
 	register(&Property{
 		ID:    "C14",
 		Level: "exploration",
-		Rule: "cases = 2..6 caller scripts on 1..2 keys: arrive at a seeded simulated instant (few distinct instants, so callers collide), Lock with TTL 1..400ms and optional context timeout, hold, then unlock with own / stale / foreign / random id or never; " +
+		Rule: "cases = 2..6 caller scripts on 1..2 keys: arrive at a seeded simulated instant (few distinct instants, so callers collide), Lock with TTL 1..400ms and optional context timeout, hold, then unlock with own / stale / foreign / random id or never; a third of the cases go through Gateway.Lock/Unlock of an in-process server (TTL floor 1000 ms, TTLs 1..1600 ms, the wait ignores the caller's cancellation); " +
 			"the scheduler decides every interleaving (preemption probability 0..50% per synchronisation point, seeded); non-trivial = at least one caller was queued behind a holder; distinct = hash of the scheduler's context-switch trace and the scripts",
 		Gen: genC14,
 		Run: runC14,
@@ -41,7 +43,7 @@ func init() {
 		Run:         runC28,
 		Sim:         true,
 		Assumptions: []string{"retained state is measured as the number of distinct heap objects reachable from the lock service value"},
-		Real:        []string{"lock.Lock/Unlock"},
+		Real:        []string{"lock.Lock/Unlock", "Gateway.Lock/Unlock (a third of the cases; zeus/hydra wiring as in the server)"},
 		Stub:        []string{"Go scheduler (simrt)", "clock (synctest)"},
 	})
 }
@@ -66,6 +68,26 @@ func genC14(seed uint64, tier string) Case {
 		}
 		c.Ops = append(c.Ops, Op{C: i, K: "caller", A: []int64{instants[r.intn(len(instants))], int64(r.intn(nkeys)), ttl, ctxTo, hold, int64(r.pick(5, 2, 2, 2, 1))}})
 	}
+	if r.chance(1, 3) {
+		// through the gateway: Gateway.Lock raises TTLs up to 1000 ms to 1000 ms and waits without honouring the
+		// caller's cancellation; Gateway.Unlock answers an unknown id with an error
+		c.Cfg["gw"] = 1
+		for i := range c.Ops {
+			a := c.Ops[i].A
+			if r.chance(1, 2) {
+				a[2] = int64(1001 + r.intn(600))
+			}
+			eff := a[2]
+			if eff <= 1000 {
+				eff = 1000
+			}
+			a[4] = int64(r.intn(300))
+			if r.chance(1, 4) {
+				a[4] = eff + int64(r.intn(50))
+			}
+			a[0] = []int64{0, 0, 1, 5, 200, 900}[r.intn(6)]
+		}
+	}
 	c.Sched = genSched(r)
 	return c
 }
@@ -82,8 +104,44 @@ type lockEv struct {
 func runC14(t *testing.T, c Case) (res Result) {
 	var evs []lockEv
 	var violationOut *Result
+	gwMode := c.cfg("gw", 0) == 1
+	realCtx := make([]int64, len(c.Ops))
+	realTTL := make([]int64, len(c.Ops))
+	for i := range c.Ops {
+		realCtx[i] = c.Ops[i].A[3]
+		realTTL[i] = c.Ops[i].A[2]
+	}
+	if gwMode {
+		// the model sees what the gateway makes of the request: TTL floor, no cancellation
+		c = c.clone()
+		for i := range c.Ops {
+			c.Ops[i].A[3] = 0
+			if c.Ops[i].A[2] <= 1000 {
+				c.Ops[i].A[2] = 1000
+			}
+		}
+	}
 	out := runSim(t, c.Sched, func() {
 		l := lock.New()
+		lockFn := func(ctx context.Context, k string, ttl time.Duration) (string, error) { return l.Lock(ctx, k, ttl) }
+		unlockFn := func(k, id string) error { return l.Unlock(k, id) }
+		if gwMode {
+			srv := startServer(simdisk.New(), 3600, 1)
+			lockFn = func(ctx context.Context, k string, ttl time.Duration) (string, error) {
+				resp, err := srv.gw.Lock(ctx, &hydrapb.LockRequest{Key: k, TTL: ttl.Milliseconds()})
+				if err != nil {
+					return "", err
+				}
+				if resp == nil {
+					return "", fmt.Errorf("nil reply")
+				}
+				return resp.LockID, nil
+			}
+			unlockFn = func(k, id string) error {
+				_, err := srv.gw.Unlock(context.Background(), &hydrapb.UnlockRequest{Key: k, LockID: id})
+				return err
+			}
+		}
 		start := time.Now()
 		rec := func(caller int, kind string, key int64, err bool) {
 			seq := simrt.EventSeq()
@@ -103,14 +161,14 @@ func runC14(t *testing.T, c Case) (res Result) {
 			gids[i] = simrt.GoID(func() {
 				simrt.Sleep(time.Duration(arrive) * time.Millisecond)
 				ctx := context.Background()
-				if ctxTo > 0 {
+				if realCtx[i] > 0 {
 					var cancel context.CancelFunc
-					ctx, cancel = context.WithTimeout(ctx, time.Duration(ctxTo)*time.Millisecond)
+					ctx, cancel = context.WithTimeout(ctx, time.Duration(realCtx[i])*time.Millisecond)
 					defer cancel()
 				}
 				k := fmt.Sprintf("key-%d", key)
 				rec(i, "invoke", key, false)
-				id, err := l.Lock(ctx, k, time.Duration(ttl)*time.Millisecond)
+				id, err := lockFn(ctx, k, time.Duration(realTTL[i])*time.Millisecond)
 				if err != nil {
 					rec(i, "failed", key, true)
 					return
@@ -132,20 +190,20 @@ func runC14(t *testing.T, c Case) (res Result) {
 					}
 					if f != "" && f != id {
 						rec(i, "foreign_call", key, false)
-						e := l.Unlock(k, f)
+						e := unlockFn(k, f)
 						rec(i, "foreign_ret", key, e != nil)
 					}
 				case 4:
 					rec(i, "foreign_call", key, false)
-					e := l.Unlock(k, "no-such-lock-id")
+					e := unlockFn(k, "no-such-lock-id")
 					rec(i, "foreign_ret", key, e != nil)
 				}
 				rec(i, "unlock_call", key, false)
-				e := l.Unlock(k, id)
+				e := unlockFn(k, id)
 				rec(i, "unlock_ret", key, e != nil)
 				if uk == 2 {
 					rec(i, "stale_call", key, false)
-					e := l.Unlock(k, id)
+					e := unlockFn(k, id)
 					rec(i, "stale_ret", key, e != nil)
 				}
 			})
